@@ -64,7 +64,7 @@ class CoxeterGroup:
             self.from_coxeter_matrix(matrix, generator_style)
 
     def bilinear_form(self, **kwargs):
-        base_ring, dtype = utils.check_type(**kwargs)
+        base_ring, dtype = utils.check_type(integer_type=False, **kwargs)
         pi = utils.pi(**kwargs)
         half = utils.number(0.5, like=pi)
 
@@ -195,7 +195,7 @@ class CoxeterGroup:
         num_gens = len(self.generators)
         rep = Representation()
 
-        base_ring, dtype = utils.check_type(**kwargs)
+        base_ring, dtype = utils.check_type(integer_type=False, **kwargs)
 
         for i, gen in enumerate(self.ordered_gens):
             basis_vec = utils.zeros(num_gens, like=cartan_matrix)
